@@ -41,7 +41,7 @@ ReqRec(k, top, o, ob, g) ==
     LET e == top.env.active IN
     [k |-> k, slot |-> o.s, e |-> e, q |-> top.env.q[e],
      row |-> top.ks[k].ptr[e], ids |-> ob.trig.ids, hash |-> ob.hash,
-     gp |-> g.gp[e], glo |-> g.glo[e], ghi |-> g.ghi[e], unk |-> (g.ga[e] = Null)]
+     gp |-> g.gp[e], gw |-> {w.a : w \in g.W[e]}]
 
 NewRecs(top, line, g2) ==
     {ReqRec(k, top, line.o, line.obs[k], g2[k]) : k \in {x \in Names : line.obs[x].out = "emit"}}
